@@ -50,7 +50,7 @@ func (c04) Runs(t Tier) int {
 }
 func (c04) RecordWidths() map[string]int { return map[string]int{"ops": 4} }
 func (c04) RequiredProbes() []string {
-	return []string{"seek-on-boundary", "seek-end-relative-on-boundary", "read-crosses-interior-boundary", "read-at-eof", "negative-seek", "readers-interleaved-mid-chunk", "seek-past-end", "dedup-dag", "depth>=3", "node-asbytes-mid-history", "linksystem-with-node-reifier", "reader-replaced-mid-history"}
+	return []string{"seek-on-boundary", "seek-end-relative-on-boundary", "read-crosses-interior-boundary", "read-at-eof", "negative-seek", "readers-interleaved-mid-chunk", "seek-past-end", "dedup-dag", "depth>=3", "node-asbytes-mid-history", "second-file-read-in-between", "linksystem-with-node-reifier", "reader-replaced-mid-history"}
 }
 
 type c04Op struct {
@@ -154,6 +154,17 @@ func (c04) Run(ts *tape.Set, tier Tier) *Result {
 	}
 	var node datamodel.Node
 	var readers []*rd
+	// byte slices handed out by AsBytes stay the caller's: whatever the
+	// library does afterwards (other reads, other files) must not change them
+	type held struct {
+		got  []byte
+		want []byte
+		op   int
+	}
+	var retained []held
+	// a second, different file in the same process, read as a whole now and then
+	other := gen.FileSpec{Writer: "builder", Size: 700 + int(fragSeed%900), Chunker: "size-64", Width: 3, Seed: fragSeed ^ 0x0bad}
+	otherRoot, otherContent, otherErr := gen.WriteFile(st, other)
 	var sig uint64
 	var opErr error
 	sawSeek, sawData := false, false
@@ -211,6 +222,15 @@ func (c04) Run(ts *tape.Set, tier Tier) *Result {
 					return
 				}
 				res.probe("node-asbytes-mid-history")
+				retained = append(retained, held{all, content, i})
+				if otherErr == nil && a%2 == 0 {
+					if on, _, err := openFile(w, otherRoot, via); err == nil {
+						if ob, err := on.AsBytes(); err == nil {
+							retained = append(retained, held{ob, otherContent, i})
+							res.probe("second-file-read-in-between")
+						}
+					}
+				}
 				continue
 			}
 			if kind == 5 {
@@ -377,6 +397,14 @@ func (c04) Run(ts *tape.Set, tier Tier) *Result {
 			r.pos = target
 		}
 	})
+	if !panicked && res.Violation == nil {
+		for _, h := range retained {
+			if !bytes.Equal(h.got, h.want) {
+				res.fail("c04/returned-bytes-changed-later", "the byte slice returned by AsBytes at op %d no longer holds the content at the end of the history: the library kept writing to memory it had handed out", h.op)
+				break
+			}
+		}
+	}
 	res.Events = st.Seq()
 	res.Sig = sigOfLog(sig, st.Log)
 	res.Excerpt = excerpt(st.Log, 12)
